@@ -37,3 +37,37 @@ static inline uint64_t vhash_bytes(uint64_t h, const void *p, size_t n)
 	memcpy(&w, c, n);
 	return vmix(h, w ^ ((uint64_t)n << 56));
 }
+
+/* Violation reporting with a per-key cap (so one noisy key cannot hide the others). Thread-safe. */
+#include <pthread.h>
+#include <stdarg.h>
+#define VV_MAXKEYS 256
+static pthread_mutex_t vv_mx = PTHREAD_MUTEX_INITIALIZER;
+static struct { char key[96]; unsigned long long n; } vv_tab[VV_MAXKEYS];
+static unsigned vv_nkeys;
+static unsigned long long vv_total;
+__attribute__((format(printf, 3, 4), unused))
+static void vviol(const char *prop, const char *key, const char *fmt, ...)
+{
+	pthread_mutex_lock(&vv_mx);
+	vv_total++;
+	unsigned i;
+	for(i = 0; i < vv_nkeys; ++i)
+		if(!strncmp(vv_tab[i].key, key, sizeof(vv_tab[i].key) - 1))
+			break;
+	if(i == vv_nkeys && vv_nkeys < VV_MAXKEYS) {
+		snprintf(vv_tab[i].key, sizeof(vv_tab[i].key), "%s", key);
+		vv_tab[i].n = 0;
+		vv_nkeys++;
+	}
+	if(i < VV_MAXKEYS && vv_tab[i].n++ < 3) {
+		va_list ap;
+		va_start(ap, fmt);
+		printf("VKEY %s %s | ", prop, key);
+		vprintf(fmt, ap);
+		printf("\n");
+		fflush(stdout);
+		va_end(ap);
+	}
+	pthread_mutex_unlock(&vv_mx);
+}
